@@ -139,14 +139,16 @@ def hexVal (c : Char) : Option Nat :=
   else if 'A' ≤ c ∧ c ≤ 'F' then some (c.toNat - 55)
   else none
 
-def ofHexChars : List Char → Option Bytes
-  | [] => some []
-  | [_] => none
-  | a :: b :: r => do
-    let x ← hexVal a
-    let y ← hexVal b
-    let rest ← ofHexChars r
-    pure (UInt8.ofNat (16 * x + y) :: rest)
+/-- tail-recursive (inputs of many megabytes must not overflow the stack) -/
+def ofHexCharsAux : List Char → Array UInt8 → Option Bytes
+  | [], acc => some acc.toList
+  | [_], _ => none
+  | a :: b :: r, acc =>
+    match hexVal a, hexVal b with
+    | some x, some y => ofHexCharsAux r (acc.push (UInt8.ofNat (16 * x + y)))
+    | _, _ => none
+
+def ofHexChars (l : List Char) : Option Bytes := ofHexCharsAux l #[]
 
 /-- `-` is the empty string; otherwise an even number of hex digits. -/
 def ofHex (s : String) : Option Bytes :=
